@@ -54,7 +54,7 @@ func (s *SimWatcher) GetBlockHeight() (uint32, error) {
 	if s.w.ShouldFail(s.node, s.chain.Name+".getblockcount") {
 		return 0, errors.New("rpc: getblockcount failed (injected)")
 	}
-	return s.chain.Tip(), nil
+	return s.w.ReportedTip(s.node, s.chain), nil
 }
 
 func (s *SimWatcher) StartWatchingTxs() error { return nil }
